@@ -118,6 +118,17 @@ func newPackage(program *loader.Program, pkgInfo *loader.PackageInfo, plugins []
 	for _, fileFuncs := range fileInfos {
 		reserved = union(reserved, fileFuncs.funcNames)
 	}
+	// The name of a call that still waits for the type of an argument is spoken for as well:
+	// a function that is made up in this pass and took that name would be the one the call resolves to after the reload.
+	for _, fileInfo := range fileInfos {
+		for _, calls := range [][]*call{fileInfo.undefined, fileInfo.derived} {
+			for _, call := range calls {
+				if call.HasUndefined() {
+					reserved[call.Name] = struct{}{}
+				}
+			}
+		}
+	}
 
 	printer := newPrinter(pkgInfo.Pkg.Name())
 	qual := newQualifier(printer, pkgInfo.Pkg)
